@@ -1,6 +1,7 @@
 CONSTANTS
   Vers = {1, 2}
   Rates = {0, 1, 2}
+  MTimes = {1, 2, 3}
   MaxSteps = 4
 SPECIFICATION Spec
 INVARIANTS ActiveIsSomeVersion Emit
